@@ -9,6 +9,7 @@ from . import tlc
 PROTO = {"C04", "C05", "C06", "C07", "C08", "C09", "C10"}
 WIRE = {"C01", "C02", "C03"}
 DECODE = {"C11", "C12", "C13"}
+INVERTER = {"C14", "C15", "C16", "C18"}
 
 
 def check(prop: str, tier: str, seed: int) -> int:
@@ -21,6 +22,9 @@ def check(prop: str, tier: str, seed: int) -> int:
     if prop in DECODE:
         from . import checks_decode
         return checks_decode.check(prop, tier, seed)
+    if prop in INVERTER:
+        from . import checks_inverter
+        return checks_inverter.check(prop, tier, seed)
     raise SystemExit(f"no check registered for {prop}")
 
 
